@@ -21,7 +21,8 @@ def build(env, per_cell, psk_bits_all):
         for mode in (2, 3, 1):
             for j in range(per_cell):
                 kdf = rnd.choice(gen.KDFS)
-                aead = rnd.choice(gen.SEAL_AEADS)
+                aead = rnd.choice(gen.SEAL_AEADS + ([0xFFFF] if j % 3 == 2 else []))
+                sealing = aead != 0xFFFF
                 s = cw.session(kem, kdf, aead, sid="a%d" % len(cw.sessions))
                 pl = rnd.choice([1, 8, 32, 64, 65, 100, 129, 300]) if j else 32
                 psk = g.raw(pl) if mode in (1, 3) else None
@@ -31,7 +32,8 @@ def build(env, per_cell, psk_bits_all):
                 gen.add_keys(s, g, kem, "kI")  # impostor identity
                 n = gen.nsk(kem)
                 pt = g.rbytes(21)
-                s.call("seal", ctx="S", api="alloc", pt=pt, aad="a1", out="h")
+                if sealing:
+                    s.call("seal", ctx="S", api="alloc", pt=pt, aad="a1", out="h")
                 for L in (32, 64):
                     s.call("export", ctx="S", exctx="-", len=L, role="honest_sender")
                     s.call("export", ctx="R", exctx="-", len=L, role="receiver")
@@ -43,10 +45,12 @@ def build(env, per_cell, psk_bits_all):
                     i = k[0]
                     k[0] += 1
                     s.call("setup_s", mode=smode, pkr="$kR.pk", info=info, rng=g.rbytes(n), out="I%d" % i, kind=kind, **sargs)
-                    s.call("seal", ctx="I%d" % i, api="alloc", pt=pt, aad="a1", out="f%d" % i)
+                    if sealing:
+                        s.call("seal", ctx="I%d" % i, api="alloc", pt=pt, aad="a1", out="f%d" % i)
                     rargs = dict(m["rargs"])
                     s.call("setup_r", mode=mode, skr="$kR.sk", enc="$I%d.enc" % i, info=info, out="V%d" % i, kind=kind, **rargs)
-                    s.call("open", ctx="V%d" % i, api="alloc", ct="$f%d.full" % i, aad="a1", role="impostor", kind=kind)
+                    if sealing:
+                        s.call("open", ctx="V%d" % i, api="alloc", ct="$f%d.full" % i, aad="a1", role="impostor", kind=kind)
                     for L in (32, 64):
                         s.call("export", ctx="I%d" % i, exctx="-", len=L, role="impostor_sender", kind=kind, pair=i)
                         s.call("export", ctx="V%d" % i, exctx="-", len=L, role="victim", kind=kind, pair=i)
@@ -73,7 +77,8 @@ def build(env, per_cell, psk_bits_all):
                         impostor("psk_prefix", mode, psk=cl.hexs(psk) + "^trunc:64", pskid=pskid, **auth)
                     impostor("no_psk", 2 if mode == 3 else 0, **auth)
                 # positive control last: the honest message still opens on the honest receiver
-                s.call("open", ctx="R", api="alloc", ct="$h.full", aad="a1", role="control")
+                if sealing:
+                    s.call("open", ctx="R", api="alloc", ct="$h.full", aad="a1", role="control")
     return cw
 
 
@@ -113,9 +118,15 @@ def monitor(sess, extra):
             mine = op.ret.get("out") if op.ok() else None
             theirs = pend.get((op.args["pair"], op.args["len"]))
             r.counts["evaluations"] += 1
+            if mine is not None and mine != theirs:
+                r.distinct.add((sess.ids[0], mode, op.args["kind"], "export", sess.ids[2] == 0xFFFF))
+                if sess.ids[2] == 0xFFFF:
+                    r.counts["impostor:%s" % op.args["kind"].split(":")[0]] += 1
             if mine is not None and mine == theirs:
                 gk = op.args["kind"].split(":")[0]
                 findings.append(("C08:shared_export:%s" % gk, "receiver in mode %s shares a %s-byte exported secret with an impostor sender (%s)" % (mode, op.args["len"], op.args["kind"]), op))
+    if sess.ids[2] == 0xFFFF and control is None and honest:
+        control = True  # export-only suites: the positive control is the pair of equal exports
     if control is not True or not exports_equal:
         if findings or control is not None:
             r.inconclusive.append("positive control failed in %s (honest sender not accepted) - impostor results are vacuous" % sess.sid)
